@@ -154,7 +154,7 @@ class Shim:
         orig['open'] = builtins.open
         orig['io_open'] = io.open
         for name in ('rename', 'replace', 'link', 'remove', 'unlink', 'mkdir', 'rmdir', 'listdir', 'stat', 'open', 'fsync',
-                     'fdatasync', 'truncate', 'ftruncate', 'readlink', 'scandir'):
+                     'fdatasync', 'truncate', 'ftruncate', 'readlink', 'scandir', 'write', 'pwrite'):
             orig[name if name != 'open' else 'os_open'] = getattr(os, name)
         orig['fcntl'] = fcntl.fcntl
         shim = self
@@ -210,14 +210,32 @@ class Shim:
 
         def hooked_os_open(path, flags, *args, **kwargs):
             tracked = shim.tracked(path)
-            if tracked is None or not shim.trace_reads:
+            writing = bool(flags & (os.O_WRONLY | os.O_RDWR | os.O_CREAT | os.O_TRUNC | os.O_APPEND))
+            if tracked is None or not (shim.trace_reads or writing):
                 return orig['os_open'](path, flags, *args, **kwargs)
-            event = shim.emit(Event('os-open', tracked, detail=flags))
+            event = shim.emit(Event('open-w' if writing else 'os-open', tracked, detail=flags))
             result = orig['os_open'](path, flags, *args, **kwargs)
             shim.done(event)
             return result
 
         os.open = hooked_os_open
+
+        def fd_write(name):
+            real = orig[name]
+
+            def wrapper(fd, data, *args, **kwargs):
+                tracked = shim.fd_path(fd) if shim._actor() is not None else None  # pylint: disable=protected-access
+                if tracked is None:
+                    return real(fd, data, *args, **kwargs)
+                event = shim.emit(Event('write', tracked, detail=len(data), data=data, fobj=_FdOnly(fd)))
+                result = real(fd, data, *args, **kwargs)
+                shim.done(event)
+                return result
+
+            return wrapper
+
+        os.write = fd_write('write')
+        os.pwrite = fd_write('pwrite')
 
         def sync_wrapper(name):
             real = orig[name]
@@ -272,7 +290,7 @@ class Shim:
         builtins.open = orig['open']
         io.open = orig['io_open']
         for name in ('rename', 'replace', 'link', 'remove', 'unlink', 'mkdir', 'rmdir', 'listdir', 'stat', 'fsync', 'fdatasync',
-                     'truncate', 'ftruncate', 'scandir'):
+                     'truncate', 'ftruncate', 'scandir', 'write', 'pwrite'):
             setattr(os, name, orig[name])
         os.open = orig['os_open']
         fcntl.fcntl = orig['fcntl']
@@ -427,6 +445,16 @@ class HookedFileIO(io.FileIO):
         result = super().close()
         shim.done(event)
         return result
+
+
+class _FdOnly:
+    """Stand-in for a file object when only a descriptor is known (os.write)."""
+
+    def __init__(self, fd):
+        self._fd = fd
+
+    def fileno(self):
+        return self._fd
 
 
 def _isdir(real_stat, path):
